@@ -2,7 +2,7 @@
    ExtrOcamlBasic only: N, positive, nat, byte stay Coq datatypes. *)
 From Coq Require Extraction ExtrOcamlBasic.
 From Coq Require Import NArith.
-From V Require Import Model.Xdr Model.XdrConform Gen.GenXdr Gen.GenRfc Model.SimpleModel Model.KvsModel Gen.GenSuper Model.SuperModel Model.Lib Model.Afs Model.Abs Model.Agree Model.WalDisk Model.TraceCheck.
+From V Require Import Model.Xdr Model.XdrConform Gen.GenXdr Gen.GenRfc Model.SimpleModel Model.KvsModel Gen.GenSuper Model.SuperModel Model.Lib Model.Afs Model.Abs Model.Agree Model.WalDisk Model.TraceCheck Model.Lin.
 Extraction Blacklist String List Nat.
 Set Extraction KeepSingleton.
 Extraction "extracted.ml"
@@ -19,4 +19,5 @@ Extraction "extracted.ml"
   KvsModel.kput KvsModel.kget KvsModel.k_valid KvsModel.kput_ok KvsModel.kvs_empty Abs.rd
   TraceCheck.asc_b TraceCheck.asc_f TraceCheck.commit_phase_b TraceCheck.balanced_b TraceCheck.waits TraceCheck.committed
   Xdr.enc Xdr.dec XdrConform.lookup_ci GenXdr.gen_env GenRfc.rfc_env
+  Lin.lin_check
   WalDisk.recover_log WalDisk.fs_part WalDisk.read_hdr Byte.to_N.
